@@ -8,7 +8,7 @@ pub open spec fn winv(s: PolicySet) -> bool {
     &&& forall|k: PolicyId| #[trigger] s.policies@.contains_key(k) <==> l.contains_key(k.0)
     &&& forall|k: PolicyId| #[trigger] s.templates@.contains_key(k) ==> t.contains_key(k.0) && !l.contains_key(k.0)
     &&& forall|k: PolicyId| #[trigger] s.policies@.contains_key(k) ==> s.policies@[k].ast == l[k.0]
-    &&& forall|k: PolicyId| #[trigger] s.templates@.contains_key(k) ==> s.templates@[k].ast == *t[k.0] && t[k.0].spec_has_slots()
+    &&& forall|k: PolicyId| #[trigger] s.templates@.contains_key(k) ==> s.templates@[k].ast == *t[k.0]
 }
 /// nothing observable changed (iteration order of the LinkedHashMaps aside)
 pub open spec fn wsame(a: PolicySet, b: PolicySet) -> bool {
